@@ -15,7 +15,7 @@ func init() {
 		ID: "C13", Fn: c13,
 		Rule:        "budget: the time-budget computation (verif wrapper) swept over remaining time 1 ms..3 h (log grid) x increment {0, 1 ms, T/100, T/10, T/2, T, 2T, 10T} x movestogo {0,1,2,5,10,40,100} x side x positions of game phase 0..24: budget <= mover's remaining time and n*budget <= T + n*inc (n = movestogo, 15 when none); live clock searches: timer-start trace value equals the wrapper's; depth: SearchDepth == d and info depth 1..d all sent unless the root is terminal / single-move; nodes: NodesVisited <= limit + 256; searchmoves: best move in the list for random subsets of the legal root moves; movetime: elapsed <= movetime + allowance, exceedances re-run serially and only reproducible ones count; distinct = distinct parameter tuples",
 		Assumptions: []string{"allowance for the temporal clause 250 ms (parallel load), decided by isolate-and-reproduce", "node overshoot bound 256 = at most one node per ply (MaxDepth 128) while unwinding plus one per iteration"},
-		Required:    []string{"budget_evaluations", "budget_inc_gt_time", "budget_movestogo_1", "budget_opponent_has_more_time", "depth_searches", "node_searches", "searchmoves_searches", "searchmoves_excluding_best", "movetime_searches", "clock_searches_traced"},
+		Required:    []string{"budget_evaluations", "budget_inc_gt_time", "budget_movestogo_1", "budget_opponent_has_more_time", "depth_searches", "node_searches", "node_searches_heavy_positions", "searchmoves_searches", "searchmoves_excluding_best", "movetime_searches", "clock_searches_traced"},
 		MinEvals:    10000,
 		TimeoutQ:    20 * 60e9,
 	})
@@ -185,6 +185,14 @@ func c13(c *Ctx) {
 			n := uint64(1 + r.Intn(40000))
 			if r.Chance(0.3) {
 				n = uint64(1 + r.Intn(300))
+			}
+			if r.Chance(0.3) {
+				// a board crowded with heavy pieces: the limit is usually reached deep inside a
+				// huge quiescence tree
+				hb := heavyPosition(r)
+				fen, p = hb.FEN(), engPos(hb.FEN())
+				payload["fen"] = fen
+				rep.Inc("node_searches_heavy_positions")
 			}
 			rep.Begin(fmt.Sprintf("nodes %d %s", n, fen))
 			runSearch(s, p, search.Limits{Nodes: n, Depth: 9})
